@@ -14,6 +14,13 @@ pub fn cases(thorough: bool, seed: u64) -> Vec<Params> {
             out.push(Params { n, t, ids, subset: vec![], variant: 0, aux: 0, seed });
         }
     }
+    // larger groups (code paths specialised by size): default and pseudo-random identifiers
+    for (n, t) in if thorough { vec![(9u16, 5u16), (12, 9), (17, 3), (34, 2)] } else { vec![(9u16, 5u16)] } {
+        out.push(Params { n, t, ids: IdSet::Default, subset: vec![], variant: 0, aux: 0, seed });
+        if n <= 12 {
+            out.push(Params { n, t, ids: IdSet::Wide(seed), subset: vec![], variant: 0, aux: 0, seed });
+        }
+    }
     out
 }
 
